@@ -413,8 +413,29 @@ fn inflect_toks(rng: &mut Rng, toks: &[TokSpec]) -> Vec<TokSpec> {
 /// are what a cache keyed too coarsely, or a buffer reused across calls, confuses.
 pub fn variant_of(rng: &mut Rng, c: &Call) -> Call {
     let mut v = c.clone();
-    match rng.below(12) {
+    match rng.below(14) {
         0 => v.concrete = !v.concrete,
+        12 => match &mut v.op {
+            // same words, other hint flags
+            Op::Find { toks, .. } | Op::FindIter { toks, .. } | Op::RewriteStream { toks, .. } => {
+                let cands: Vec<usize> = (0..toks.len()).filter(|&i| !toks[i].is_glue()).collect();
+                if !cands.is_empty() {
+                    let k = *rng.pick(&cands);
+                    if rng.chance(1, 2) {
+                        toks[k].separated = !toks[k].separated;
+                    } else {
+                        toks[k].nan = !toks[k].nan;
+                    }
+                }
+            }
+            _ => v.concrete = !v.concrete,
+        },
+        13 => match &mut v.op {
+            // same stream, another consumer schedule
+            Op::FindIter { requests, .. } => *requests = *rng.pick(&[0usize, 1, 2, 3, 100]),
+            Op::Raw { decimal_from, words } => *decimal_from = if *decimal_from == usize::MAX { rng.range(1, words.len().max(1)) } else { usize::MAX },
+            _ => v.crash_at = if c.crash_at == 0 { rng.range(1, 20) as u64 } else { 0 },
+        },
         10 | 11 => {
             // the very same call through another language (same type when both are the facade)
             v.lang = (c.lang + 1 + rng.below(6)) % 7;
